@@ -1285,6 +1285,29 @@ func (c *Ctx) encScanCoverage(fn *ssa.Function, fa *FnAnalysis, app *ssa.Store) 
 			return fmt.Sprintf("character %d of the new entry (of %d) is never compared with the existing pairs: a character already in use would be accepted", i, k)
 		}
 	}
+	// a positive verdict is final: no further comparison is made (its result could overwrite the
+	// verdict) on a path on which an earlier comparison has found a duplicate
+	for _, call := range c.findCalls(fn, "strInSlice") {
+		for _, s := range fa.statesBefore(call) {
+			if s.dead {
+				continue
+			}
+			for _, fct := range s.factList() {
+				if fct.Kind != aTR || !fct.Val {
+					continue
+				}
+				hit := fct.T.K == "APP" && fct.T.S == "strInSlice"
+				for _, mv := range fct.T.vals {
+					if len(callsBehind(c, mv, "strInSlice")) > 0 {
+						hit = true
+					}
+				}
+				if hit {
+					return "the scan goes on after a duplicate was found (" + c.p.instrPos(call) + "): a later comparison can overwrite the positive verdict"
+				}
+			}
+		}
+	}
 	// loops are left only past their bound or with a duplicate found
 	for hdr, blocks := range fa.loopOf {
 		iff, _ := hdr.Instrs[len(hdr.Instrs)-1].(*ssa.If)
